@@ -66,7 +66,7 @@ func VP_C16_CliChecksFirst() {
 	doCheck := vpChoose("do-check", 2) == 1
 	before := vpFsSnapshot(base)
 	var err error
-	cmd := vpChoose("command", 8)
+	cmd := vpChoose("command", 9)
 	g := vpGlobals(cfg, doCheck)
 	switch cmd {
 	case 0:
@@ -83,6 +83,8 @@ func VP_C16_CliChecksFirst() {
 		err = cmdAuthenticate(vpCliContext(g, map[string]string{}, []string{"root", "rootpw"}))
 	case 6: // run / runsa: the listener configuration is read only after the check (it does not exist)
 		err = cmdRun(vpCliContext(g, map[string]string{"listener": "/nonexistent/listener.yml"}, []string{}))
+	case 8:
+		err = cmdList(vpCliContext(g, map[string]string{"full": "true"}, []string{}))
 	case 7:
 		err = cmdRunSa(vpCliContext(g, map[string]string{"listener": "/nonexistent/listener.yml"}, []string{}))
 	}
